@@ -102,10 +102,13 @@ prop("C15", "proof",
      "two-secret protocol. PARTIAL: completeness of the whole proof for every subset U and rejection of mismatching statements / edited fields are decided by correspondence "
      "(integer for integer, logged draws) + sweep over ALL U for n <= 3 (thorough 5). Known finding F9 (unused randomness leaves) reported.", "DESIGN.md §10 C15", NOTE_CL)
 prop("C16", "proof",
-     "Proved: what an accepted Boudot proof pins -- E' = E^(2^T) and the square proofs are about E_a_1 / E_b_1 themselves (F8 transplant, repaired by 291caf1). PARTIAL: "
-     "completeness for every interval / value (prover-verifier bound mismatch F11 repaired by ff66daa) and rejection of edited proofs / other bounds, bases, modulus are decided by "
-     "correspondence (proofs equal integer for integer, rejection loops included) + sweep (widths 1, 2, 3, 2^k, 2^256-1, endpoints, out-of-range provers, transplant forgeries "
-     "built in Python). Known finding F13 (prove panics for rmax <= 0) reported.", "DESIGN.md §10 C16", NOTE_CL)
+     "Proved: boudot_complete -- every proof the honest prover returns verifies, for every modulus, every pair of invertible bases, every interval, every value and every "
+     "sequence of draws incl. negative randomness (all ten algorithms: same-secret, square, larger-interval, tolerance, square-decomposition; exponent arithmetic with negative "
+     "exponents and completeness of the model's modular inverse proved from scratch); what an accepted proof pins: E' = E^(2^T) and the square proofs are about E_a_1 / E_b_1 "
+     "themselves (F8 transplant, repaired by 291caf1); li_bounds_tied: prover and verifier use the same bound on D_1 (F11, repaired by ff66daa; source tie regenerated each run). "
+     "PARTIAL: rejection of edited proofs / other bounds, bases, modulus is decided by correspondence (proofs equal integer for integer, rejection loops included) + sweep "
+     "(widths 1, 2, 3, 2^k, 2^256-1, endpoints, out-of-range provers, transplant forgeries, forced-gap replay). Known finding F13 (prove panics for rmax <= 0) reported.",
+     "DESIGN.md §10 C16", NOTE_CL)
 prop("C17", "proof",
      "The property is VIOLATED by the code (finding F9): machine-checked on the faithful model -- the signature proof embeds Cv = {value, randomness} with value = v g_0^randomness "
      "mod N for every run (spok_carries_opening_of_v), so v is recomputable by the recipient. The sweep runs the property's own attacker on the serialized proofs of the real code "
